@@ -28,6 +28,10 @@ case_strategy = st.fixed_dictionaries({
     "plan": jp.plans(allow_headerless=True),
     "keymode": st.sampled_from(["attached", "attached", "keyset", "callable"]),
     "form": st.sampled_from(KEYFORMS),
+    # with zip=DEF now and then a plaintext right below the decompression limit: incompressible (its DEFLATE form is longer than the
+    # plaintext) or highly compressible; value = distance from the limit
+    "near_limit": st.sampled_from([None] * 9 + [0, 1, 39, 80, 200]),
+    "near_limit_class": st.sampled_from(["random", "random", "zeros", "text"]),
 })
 
 
@@ -115,6 +119,18 @@ def _check_headers(obj, plan, f, tag):
 
 def run_case(case) -> dict:
     plan = case["plan"]
+    if case.get("near_limit") is not None and plan["zip"] == "DEF" and not case.get("kind"):
+        import hashlib
+        n = 256000 - case["near_limit"]
+        cls = case["near_limit_class"]
+        if cls == "random":
+            blob = b"".join(hashlib.sha512(b"%d/%d" % (case["near_limit"], i)).digest() for i in range(n // 64 + 1))[:n]
+        elif cls == "zeros":
+            blob = bytes(n)
+        else:
+            blob = (b"the quick brown fox jumps over the lazy dog {\"claim\": true}\n" * (n // 60 + 1))[:n]
+        plan = dict(plan, plaintext_hex=blob.hex())
+        case = dict(case, plan=plan)
     pt = bytes.fromhex(plan["plaintext_hex"])
     algs = [r["alg"] for r in plan["recipients"]]
     tag = f"{plan['ser']}"
